@@ -103,4 +103,57 @@ def ruleOk (n : RuleNfa) (r : Rx) : Bool :=
   let R := search n al cf 2000 [init] []
   isBisim n al cf R && pairIn init R
 
+/-! ### token rules of the lexer: finite languages by enumeration along a checked rank, the others by the bisimulation check -/
+
+/-- a token rule of the lexer ATN: token type, sub-automaton over character codes, and (for acyclic rules) a rank per state -/
+structure LexNfa where
+  ty   : Nat
+  nfa  : RuleNfa
+  rank : List (Nat × Nat)
+deriving Repr, Inhabited
+
+def rankOf (rk : List (Nat × Nat)) (q : Nat) : Nat := (rk.lookup q).getD 0
+
+/-- every transition strictly decreases the rank: the automaton is acyclic and no path from `q` is longer than `rankOf q` -/
+def rankOk (n : RuleNfa) (rk : List (Nat × Nat)) : Bool :=
+  n.eps.all (fun e => rankOf rk e.2 < rankOf rk e.1) && n.edges.all (fun e => rankOf rk e.2.2 < rankOf rk e.1)
+
+/-- all words accepted from `q` along at most `fuel` transitions -/
+def wordsFrom (n : RuleNfa) : Nat → Nat → List (List Sym)
+  | 0, _ => []
+  | fuel + 1, q =>
+    (if q == n.stop then [[]] else []) ++
+    (n.eps.filter (fun e => e.1 == q)).flatMap (fun e => wordsFrom n fuel e.2) ++
+    (n.edges.filter (fun e => e.1 == q)).flatMap (fun e => (wordsFrom n fuel e.2.2).map (e.2.1 :: ·))
+
+/-- the literal alternatives of a token-table rule as words over character codes (`none`: the rule has ranges or a star) -/
+def literalsOf (r : LexRule) : Option (List (List Sym)) :=
+  if r.alts.all (fun a => a.all (fun it => it.lo == it.hi && !it.star)) then
+    some (r.alts.map (fun a => a.map (fun it => Sym.tok it.lo.toNat)))
+  else none
+
+/-- a token-table rule with ranges / a star as a regular expression over character codes -/
+def rxOfItem (it : CItem) : Rx :=
+  let cs := (List.range (it.hi.toNat + 1 - it.lo.toNat)).map (fun k => Rx.tok (it.lo.toNat + k))
+  let one := match cs with | [] => Rx.tok it.lo.toNat | c :: rest => rest.foldl Rx.alt c
+  if it.star then .star one else one
+
+def rxOfRule (r : LexRule) : Rx :=
+  match r.alts.map (fun a => (a.map rxOfItem).foldr Rx.seq .eps) with
+  | [] => .eps
+  | x :: rest => rest.foldl Rx.alt x
+
+/-- every enumerated word is one of the remaining literals (which is then used up) and no literal is left over: one pass over the
+    enumeration (the kernel evaluates it once) -/
+def usesUp : List (List Sym) → List (List Sym) → Bool
+  | [], rem => rem.isEmpty
+  | w :: ws, rem => if w ∈ rem then usesUp ws (rem.erase w) else false
+
+/-- the token rule of the lexer ATN and the rule of the token table accept the same character strings -/
+def lexRuleOk (l : LexNfa) (r : LexRule) : Bool :=
+  l.ty == r.ty &&
+  (match literalsOf r with
+   | some lits => rankOk l.nfa l.rank && usesUp (wordsFrom l.nfa (rankOf l.rank l.nfa.start + 1) l.nfa.start) lits
+   | none => ruleOk l.nfa (rxOfRule r))
+
 end Gly.Atn
